@@ -95,6 +95,28 @@ Call(cfg, s, c) ==
     IN [s |-> [sC EXCEPT !.st[c] = st1], done |-> done]
 
 ---------------------------------------------------------------------------
+(* Provenance of metadata through the transfer rules.  Every output that has its metadata   *)
+(* from the start (outown) or from the component (oprov) declares otag = c; a derived       *)
+(* output is described by the rule list <<FromInput("In"), FromValue("ovia", c)>>, a derived *)
+(* input by <<FromOutput("Out"), FromValue("ivia", c)>>.  A whole-info rule copies; a value  *)
+(* rule changes only the composed info, never the exchanged info it was composed from.      *)
+(* The exchanged input info is the source's info overridden by what the input declared.     *)
+(* <<otag, ovia, ivia>>, 0 = absent; fuel bounds the recursion (circular derivations stall) *)
+NoMeta == <<0, 0, 0>>
+Override(base, own) == [j \in 1..3 |-> IF own[j] # 0 THEN own[j] ELSE base[j]]
+RECURSIVE OutM(_, _, _), InM(_, _, _)
+OutM(cfg, c, fuel) ==
+  LET k == cfg.comps[c] IN
+  IF fuel = 0 THEN <<-1, -1, -1>>
+  ELSE IF k.outown \/ k.oprov THEN <<c, 0, 0>>
+  ELSE [InM(cfg, c, fuel - 1) EXCEPT ![2] = c]
+InM(cfg, c, fuel) ==
+  LET k == cfg.comps[c]
+      own == IF k.inown THEN NoMeta ELSE [OutM(cfg, c, fuel - 1) EXCEPT ![3] = c]
+  IN IF fuel = 0 THEN <<-1, -1, -1>> ELSE Override(OutM(cfg, k.src, fuel - 1), own)
+Fuel(cfg) == 3 * Len(cfg.comps) + 2
+
+---------------------------------------------------------------------------
 (* Least fixpoint of the exchange dependencies, independent of any order *)
 Items(cfg) == {<<c, f>> : c \in Comps(cfg), f \in {"inX", "inD", "outP", "outX", "outD"}}
 Derivable(cfg, F, it) ==
